@@ -330,3 +330,47 @@ func alignAliasing(r *core.Run, sigma string, L int, matrices []string, judge fu
 			return out
 		})
 }
+
+// alignAllBytes: every byte value except the reserved gap byte 255 as a sequence letter. The aligners
+// work on bytes; no value (0x00, '*', '-', ' ', 0x80..0xFE) has a meaning of its own in a sequence.
+func alignAllBytes(r *core.Run, levenshtein bool, params []string, judge func(c alnCase, res alnResult, changed bool) core.Outcome) {
+	core.Clause(r, "all-byte-letters", core.Opts{Rule: fmt.Sprintf("for every byte value v in 0..254 (255 is the reserved gap byte): every ordered pair of sequences over {A, v} up to length 3 x {Global, Local} x the two-letter matrices %v over {A, v}%s; judged like every other call; non-trivial = both sequences non-empty", params, map[bool]string{true: " and Levenshtein", false: ""}[levenshtein]),
+		Bounds: "255 byte values x 225 sequence pairs x matrices x 2 functions"},
+		func(emit func(alnCase) bool) {
+			for v := 0; v < 255; v++ {
+				if v == 'A' {
+					continue
+				}
+				var mats []string
+				for _, p := range params {
+					mats = append(mats, fmt.Sprintf("over:%d:%s", v, p))
+				}
+				if levenshtein {
+					mats = append(mats, "Levenshtein")
+				}
+				for _, fn := range bothFns {
+					for _, mn := range mats {
+						stop := false
+						pairsOver(string([]byte{'A', byte(v)}), 3, func(a, b string) bool {
+							if !emit(alnCase{fn, core.S(a), core.S(b), mn}) {
+								stop = true
+							}
+							return !stop
+						})
+						if stop {
+							return
+						}
+					}
+				}
+			}
+		},
+		func(c alnCase) core.Outcome {
+			res, changed := runAlign(c, matrixByName(c.Matrix))
+			out := judge(c, res, changed)
+			if out.Fail == "" && out.Known == "" && out.Class == "" {
+				out.Class = c.Fn
+				out.Nontrivial = len(c.A) > 0 && len(c.B) > 0
+			}
+			return out
+		})
+}
